@@ -22,7 +22,11 @@ PROFILES = [
     ('conn', .1, dict(p_incompat=.15, n_conn=(1, 1), n_steps=(2, 5), max_sel=2, max_opts=3, max_side=2, n_dv=(0, 1))),
     # grouping connectors with conditional members: their aggregated degree lives on a node object shared by all graphs
     ('conn_grp', .05, dict(p_incompat=.1, n_conn=(1, 1), p_grp=.8, p_conn_cond=.8, n_steps=(2, 5), max_sel=2, max_opts=3)),
-    ('dup_id', .14, dict(p_incompat=.3, p_dup_id=.7, n_dv=(0, 2), p_multi_choice=.3)),
+    ('dup_id', .1, dict(p_incompat=.3, p_dup_id=.7, n_dv=(0, 2), p_multi_choice=.3)),
+    # three connection choices active together: a processor that has decoded keeps partial instances keyed on what was
+    # applied before, and carries them through pickle
+    ('conn3', .04, dict(p_incompat=.1, n_conn=(3, 3), n_steps=(1, 3), max_sel=1, max_opts=2, p_grp=0., p_excl=.1,
+                        p_conn_cond=.15, max_side=2, max_side_total=3)),
     # a node that is an option of several choices gets its option id from the first one: options of the other choice
     # can then tie on (decision id, option id)
     ('shared_option', .06, dict(allow=('shared_option',), p_incompat=.2, p_opt_existing=.5, p_multi_choice=.3)),
@@ -33,6 +37,8 @@ def case_spec(seed, i):
     rnd = gen.rng_for('C18', seed, i)
     r = rnd.random()
     acc = 0
+    if i % 16 == 5:   # (so that the cross-process phases, which use the first cases only, always see a few of these)
+        return 'conn3_simple', gen.gen_conn3_simple(rnd)
     if r > .93:
         return 'replica', gen.gen_replica(rnd)
     if r > .88:
@@ -365,6 +371,7 @@ def phase2(task, col):
             bb = B.Built()
             bb.spec = sp
             dv = O.des_vars(gp, bb)
+            mapping_after_unpickle(sp, gp, b, bb, col, flags, task)
             col.samples.append({'__phase2__': {str(i): {'dv_names': [v['name'] for v in dv],
                                                         'n_opts': [v.get('n_opts') for v in dv]}},
                                 'hs': task['hs'], 'from_hs': task['from_hs']})
@@ -372,6 +379,38 @@ def phase2(task, col):
             info = D.exc_info(e)
             col.violation('unpickle_exception_in_other_process', sp, {'exc': info}, flags,
                           where={'exc': info['type'], 'site': info['site']})
+
+
+def mapping_after_unpickle(sp, gp, b, bb, col, flags, task):
+    """The restored processor (which decoded in the process that pickled it) maps vectors to the same architectures as
+    processors built here from the description, one fresh processor per vector."""
+    from adsg_core.optimization.graph_processor import GraphProcessor
+    rnd = gen.rng_for('C18map', S.digest(sp))
+    try:
+        vecs, _ = D.declared_space(gp, 10, rnd)
+    except Exception:  # noqa
+        return
+    rnd.shuffle(vecs)
+    bare = B.Built()
+    bare.spec = sp
+
+    def key(g):
+        o = O.instance(g, bare)
+        return S.digest([o['nodes'], o['edges'], o['dv']])
+    for x in vecs[:8]:
+        try:
+            g1, x1, a1 = gp.get_graph(x)
+            g2, x2, a2 = GraphProcessor(b.dsg).get_graph(x)
+        except Exception:  # noqa  (decoding itself is judged elsewhere)
+            col.count('mapping_after_unpickle_decode_failed')
+            continue
+        col.count('monitor_mapping_after_unpickle_evaluations')
+        if key(g1) != key(g2) or [round(float(v), 9) for v in x1] != [round(float(v), 9) for v in x2]:
+            col.violation('unpickled_processor_maps_vector_to_other_architecture', sp,
+                          {'x': [float(v) for v in x], 'restored': [float(v) for v in x1],
+                           'rebuilt': [float(v) for v in x2], 'same_instance': key(g1) == key(g2),
+                           'pickled_under': task['from_hs'], 'loaded_under': task['hs']}, flags)
+            return
 
 
 def worker(task, col):
